@@ -397,7 +397,7 @@ Proof.
     assert (X : forall l r', incl l fs ->
               fields_with (fun k0 => lookup k0 kv) (coerced_default n' s) (coerced_default n' s) l = Some r' ->
               exists vs, Forall2 (fun rs x => rs = Ok x)
-                           (map (fun f => field_result k' E kvj (gen_field s cs snake f)) l) vs
+                           (map (fun f => field_result k' E kvj (gen_field s cs snake fs f)) l) vs
                          /\ map_opt entry_dump vs = Some (map (fun p => (fst p, json_of_cvalue (snd p))) r')).
     { induction l as [|f l IHl]; intros r' INC FWl.
       - simpl in FWl. inversion FWl. exists []. split; [constructor | reflexivity].
@@ -413,7 +413,7 @@ Proof.
         pose proof (G1 _ INx) as Gx. simpl in Gx. rewrite (find_field_self snake fs f NOK Hf) in Gx.
         rewrite Forall_forall in FA. pose proof (FA _ INx) as Px. simpl in Px.
         destruct (Px (i_type f) true n' vc k' LE' Gx ltac:(discriminate) Cx) as [v [Hv Dv]].
-        exists ((p_name (gen_field s cs snake f), (i_name f, v)) :: vs). split.
+        exists ((p_name (gen_field s cs snake fs f), (i_name f, v)) :: vs). split.
         + constructor; [|exact Hs]. unfold field_result.
           rewrite (field_input_gen s cs snake fs kvj f NOK KK Hf). unfold kvj. rewrite jlookup_map, Lx. simpl.
           rewrite gen_field_ann, Hv. unfold keep. simpl. unfold wire_of. rewrite gen_field_wire. reflexivity.
@@ -562,10 +562,10 @@ Lemma top_level_body ft lit :
   default_body (rhs_default (Some (const_value_node ft lit false false))) = Some (const_value_node ft lit true false).
 Proof. destruct lit; reflexivity. Qed.
 
-Theorem default_roundtrip f lit n cv k :
-  i_default f = Some lit -> good_default s lit (i_type f) = true ->
+Theorem default_roundtrip fs f lit n cv k :
+  emitted_default s f = Some lit -> good_default s lit (i_type f) = true ->
   coerced_default n s (i_type f) lit = Some cv -> n < k ->
-  exists b v, default_body (rhs_default (p_value (gen_field s cs snake f))) = Some b /\
+  exists b v, default_body (rhs_default (p_value (gen_field s cs snake fs f))) = Some b /\
               eval k E b = Ok v /\ dump v = Some (json_of_cvalue cv).
 Proof.
   intros D G C LT. rewrite gen_field_default. unfold field_default_value. rewrite D.
@@ -622,6 +622,29 @@ Fixpoint no_obj (lit : cvalue) : bool :=
   | CList l => forallb no_obj l
   | _ => true
   end.
+
+(* a literal of a proved object-free shape already has the shape of its type: the repair e1f804e leaves it alone *)
+Lemma coerce_lit_simple s : forall lit t, good_default s lit t = true -> no_obj lit = true ->
+  coerce_lit s lit t = lit.
+Proof.
+  apply (cvalue_ind2 (fun lit => forall t, good_default s lit t = true -> no_obj lit = true ->
+                                  coerce_lit s lit t = lit)).
+  - intros z t. induction t as [nm|t IH|t IH]; simpl; intros G N.
+    + unfold leaf_good in G. destruct (kind_of s nm); try reflexivity. discriminate.
+    + discriminate.
+    + apply IH; assumption.
+  - intros x t. induction t as [nm|t IH|t IH]; simpl; intros G N; [reflexivity | discriminate | apply IH; assumption].
+  - intros x t. induction t as [nm|t IH|t IH]; simpl; intros G N; [reflexivity | discriminate | apply IH; assumption].
+  - intros b t. induction t as [nm|t IH|t IH]; simpl; intros G N; [reflexivity | discriminate | apply IH; assumption].
+  - intros t. induction t as [nm|t IH|t IH]; simpl; intros G N; [reflexivity | reflexivity | discriminate].
+  - intros v t. induction t as [nm|t IH|t IH]; simpl; intros G N; [reflexivity | discriminate | apply IH; assumption].
+  - intros l FA t. induction t as [nm|t IH|t IH]; simpl; intros G N.
+    + reflexivity.
+    + f_equal. rewrite <- (map_id l) at 2. apply map_ext_in. intros x Hx.
+      rewrite forallb_forall in G, N. rewrite Forall_forall in FA. apply (FA x Hx t (G x Hx) (N x Hx)).
+    + apply IH; assumption.
+  - intros kv _ t G N. simpl in N. discriminate.
+Qed.
 
 (* a field an object literal may leave out: nullable without default, or with a default of a shape the
    expression theorem covers that contains no object (its evaluation needs no fuel) *)
@@ -753,15 +776,15 @@ Proof.
 Qed.
 
 (* what validate does for a field the object leaves out *)
-Lemma field_result_omitted k' kvj f : 
-  field_input (gen_field s cs snake f) kvj = None ->
-  field_result k' E kvj (gen_field s cs snake f) =
-  match default_body (rhs_default (p_value (gen_field s cs snake f))) with
-  | Some b => keep (gen_field s cs snake f) (eval k' E b)
+Lemma field_result_omitted fs k' kvj f : 
+  field_input (gen_field s cs snake fs f) kvj = None ->
+  field_result k' E kvj (gen_field s cs snake fs f) =
+  match default_body (rhs_default (p_value (gen_field s cs snake fs f))) with
+  | Some b => keep (gen_field s cs snake fs f) (eval k' E b)
   | None => Err EValidation
   end.
 Proof.
-  intros H. unfold field_result. rewrite H. destruct (rhs_default (p_value (gen_field s cs snake f))); reflexivity.
+  intros H. unfold field_result. rewrite H. destruct (rhs_default (p_value (gen_field s cs snake fs f))); reflexivity.
 Qed.
 
 Lemma rtvw_obj kv : Forall (fun p => RTVW (snd p)) kv -> RTVW (CObj kv).
@@ -787,14 +810,14 @@ Proof.
     assert (X : forall l r', incl l fs ->
               fields_with (fun k0 => lookup k0 kv) (coerced_default n' s) (coerced_default n' s) l = Some r' ->
               exists vs jkv, Forall2 (fun rs x => rs = Ok x)
-                           (map (fun f => field_result k' E kvj (gen_field s cs snake f)) l) vs
+                           (map (fun f => field_result k' E kvj (gen_field s cs snake fs f)) l) vs
                          /\ map_opt entry_dump vs = Some jkv
                          /\ strip_kv jkv = strip_kv (map (fun p => (fst p, json_of_cvalue (snd p))) r')).
     { induction l as [|f l IHl]; intros r' INC FWl.
       - simpl in FWl. inversion FWl. exists [], []. repeat split; constructor.
       - assert (Hf : In f fs) by (apply INC; left; reflexivity).
         assert (INC' : incl l fs) by (intros x Hx; apply INC; right; exact Hx).
-        assert (FI : field_input (gen_field s cs snake f) kvj = option_map json_of_cvalue (lookup (i_name f) kv)).
+        assert (FI : field_input (gen_field s cs snake fs f) kvj = option_map json_of_cvalue (lookup (i_name f) kv)).
         { rewrite (field_input_gen s cs snake fs kvj f NOK KK Hf). unfold kvj. apply jlookup_map. }
         simpl in FWl. destruct (lookup (i_name f) kv) as [x|] eqn:Lx.
         + (* the literal gives the field *)
@@ -806,7 +829,7 @@ Proof.
           pose proof (G1 _ INx) as Gx. simpl in Gx. rewrite (find_field_self snake fs f NOK Hf) in Gx.
           rewrite Forall_forall in FA. pose proof (FA _ INx) as Px. simpl in Px.
           destruct (Px (i_type f) true n' vc k' LE' Gx ltac:(discriminate) Cx) as [v [jd [Hv [Dv Sv]]]].
-          exists ((p_name (gen_field s cs snake f), (i_name f, v)) :: vs), ((i_name f, jd) :: jkv). split; [|split].
+          exists ((p_name (gen_field s cs snake fs f), (i_name f, v)) :: vs), ((i_name f, jd) :: jkv). split; [|split].
           * constructor; [|exact Hs]. unfold field_result. rewrite FI. simpl.
             rewrite gen_field_ann, Hv. unfold keep. simpl. unfold wire_of. rewrite gen_field_wire. reflexivity.
           * simpl. unfold entry_dump at 1. simpl. rewrite Dv. simpl. rewrite Ds. reflexivity.
@@ -815,11 +838,11 @@ Proof.
           pose proof (G2 f Hf) as Gf. apply orb_true_iff in Gf as [Gf|Gf].
           { exfalso. destruct (lookup_mem _ _ Gf) as [x Lx']. congruence. }
           unfold omitted_ok in Gf.
-          assert (FR := field_result_omitted k' kvj f ltac:(rewrite FI; reflexivity)).
-          rewrite gen_field_default in FR. unfold field_default_value in FR.
-          destruct (i_default f) as [d|] eqn:D.
+          assert (FR := field_result_omitted fs k' kvj f ltac:(rewrite FI; reflexivity)).
+          rewrite gen_field_default in FR. unfold field_default_value, emitted_default in FR.
+          destruct (i_default f) as [d|] eqn:D; simpl option_map in FR.
           * (* schema default: the class default evaluates to its coerced value *)
-            apply andb_true_iff in Gf as [Gd Nd].
+            apply andb_true_iff in Gf as [Gd Nd]. rewrite (coerce_lit_simple s d (i_type f) Gd Nd) in FR.
             destruct (coerced_default n' s (i_type f) d) as [vc|] eqn:Cd; [|discriminate].
             destruct (fields_with (fun k0 => lookup k0 kv) (coerced_default n' s) (coerced_default n' s) l) as [rl|] eqn:Fl;
               [|discriminate]. inversion FWl; subst r'.
@@ -827,7 +850,7 @@ Proof.
             rewrite top_level_body in FR.
             destruct (roundtrip_nested s cs snake OK d (i_type f) n' vc (S n') ltac:(lia) Gd Cd) as [v [Hv Dv]].
             rewrite (eval_no_obj_fuel E _ d Nd true false k' (S n')) in FR. fold E in Hv. rewrite Hv in FR.
-            exists ((p_name (gen_field s cs snake f), (i_name f, v)) :: vs), ((i_name f, json_of_cvalue vc) :: jkv).
+            exists ((p_name (gen_field s cs snake fs f), (i_name f, v)) :: vs), ((i_name f, json_of_cvalue vc) :: jkv).
             split; [|split].
             -- constructor; [|exact Hs]. rewrite FR. unfold keep. simpl. unfold wire_of. rewrite gen_field_wire. reflexivity.
             -- simpl. unfold entry_dump at 1. simpl. rewrite Dv. simpl. rewrite Ds. reflexivity.
@@ -836,7 +859,7 @@ Proof.
             apply negb_true_iff in Gf. rewrite Gf in FWl, FR. simpl in FR.
             destruct (IHl r' INC' FWl) as [vs [jkv [Hs [Ds Ss]]]].
             rewrite eval_const_eq in FR.
-            exists ((p_name (gen_field s cs snake f), (i_name f, VNone)) :: vs), ((i_name f, JNull) :: jkv).
+            exists ((p_name (gen_field s cs snake fs f), (i_name f, VNone)) :: vs), ((i_name f, JNull) :: jkv).
             split; [|split].
             -- constructor; [|exact Hs]. rewrite FR. unfold keep. simpl. unfold wire_of. rewrite gen_field_wire. reflexivity.
             -- simpl. rewrite Ds. reflexivity.
@@ -949,10 +972,10 @@ Qed.
 
 (* the default of a field, for object literals that may omit fields: equal to the coerced schema default
    modulo absent == null *)
-Theorem default_roundtrip_modulo_null f lit n cv k :
-  i_default f = Some lit -> good_default_w s lit (i_type f) = true ->
+Theorem default_roundtrip_modulo_null fs f lit n cv k :
+  emitted_default s f = Some lit -> good_default_w s lit (i_type f) = true ->
   coerced_default n s (i_type f) lit = Some cv -> n < k ->
-  exists b v jd, default_body (rhs_default (p_value (gen_field s cs snake f))) = Some b /\
+  exists b v jd, default_body (rhs_default (p_value (gen_field s cs snake fs f))) = Some b /\
                  eval k E b = Ok v /\ dump v = Some jd /\
                  strip_nulls jd = strip_nulls (json_of_cvalue cv).
 Proof.
@@ -1007,11 +1030,12 @@ Proof.
   apply effective_incl in Hpf. simpl in Hpf. apply in_map_iff in Hpf as [f [<- Hf]].
   unfold simple_defaults in SD. rewrite forallb_forall in SD. specialize (SD _ Hin). simpl in SD.
   rewrite forallb_forall in SD. specialize (SD f Hf). unfold simple_field_default in SD.
-  assert (B : default_body (rhs_default (p_value (gen_field s cs snake f))) = Some e)
+  assert (B : default_body (rhs_default (p_value (gen_field s cs snake fs f))) = Some e)
     by (destruct He as [-> | ->]; reflexivity).
-  rewrite gen_field_default in B. unfold field_default_value in B.
-  destruct (i_default f) as [d|].
+  rewrite gen_field_default in B. unfold field_default_value, emitted_default in B.
+  destruct (i_default f) as [d|]; simpl option_map in B.
   - apply andb_true_iff in SD as [SD CD]. apply andb_true_iff in SD as [GD ND].
+    rewrite (coerce_lit_simple s d (i_type f) GD ND) in B.
     destruct (coerced_default (S (lit_depth d)) s (i_type f) d) as [cv|] eqn:C; [|discriminate].
     rewrite top_level_body in B. inversion B; subst e.
     destruct (roundtrip_nested s cs snake OK d (i_type f) (S (lit_depth d)) cv (S (S (lit_depth d))) ltac:(lia) GD C) as [v [Hv _]].
